@@ -160,6 +160,9 @@ type c15Above struct {
 func (a *c15Above) caught(r any, stack string) error {
 	if a.rec.panicked == "" {
 		a.rec.panicked, a.rec.panicFn = fmt.Sprint(r), c15PanicFn(stack)
+		if a.rec.panicFn == "?" {
+			a.rec.panicked += " | stack: " + stack
+		}
 	}
 	a.rec.ended = true
 	return errors.New("verif: wrapper panicked")
